@@ -50,15 +50,27 @@ theorem Kept.trans {a b c : St} (h1 : Kept a b) (h2 : Kept b c) : Kept a c :=
 /-- the loop is `Running` or `Finished` -/
 def Live (b : Base) (s : St) : Prop := (∃ top rest, Running b s top rest) ∨ Finished b s
 
+/-- what one instruction makes of the stack of activations `top :: rest`: it stays, a callee is
+pushed, the top activation returns to its caller, or the bottom activation returns to the base -/
+def Next (b : Base) (s' : St) (top : Act) (rest : List Act) : Prop :=
+  Running b s' top rest ∨ (∃ c, Running b s' c (top :: rest)) ∨ (∃ a r, rest = a :: r ∧ Running b s' a r) ∨ Finished b s'
+
+theorem Next.live {b : Base} {s' : St} {top : Act} {rest : List Act} (h : Next b s' top rest) : Live b s' := by
+  rcases h with h | ⟨c, h⟩ | ⟨a, r, _, h⟩ | h
+  · exact Or.inl ⟨_, _, h⟩
+  · exact Or.inl ⟨_, _, h⟩
+  · exact Or.inl ⟨_, _, h⟩
+  · exact Or.inr h
+
 /-- the specifications of the functions of the mutual block, at one fuel -/
 structure AllSpec (n : Nat) : Prop where
   exec : ∀ (b : Base) (s s' : St) (top : Act) (rest : List Act) (i : Instr), WF s → Running b s top rest →
     (fnOf s s.curfunc).code[s.pc.toNat]? = some i → (exec n i).run s = (.ok (), s') →
-    WF s' ∧ TExt s s' ∧ Live b s' ∧ s'.suspended = s.suspended
+    WF s' ∧ TExt s s' ∧ Next b s' top rest ∧ s'.suspended = s.suspended
   resolved : ∀ (b : Base) (s s' : St) (top : Act) (rest : List Act) (f : Val) (c0 : Expr) (args : List Expr), WF s →
     Running b s top rest → (fnOf s s.curfunc).code[s.pc.toNat]? = some (.callExpr c0 args) →
     vok s.fns.length f = true → okLs args = true → (callResolved n f args).run s = (.ok (), s') →
-    WF s' ∧ TExt s s' ∧ Live b s' ∧ s'.suspended = s.suspended
+    WF s' ∧ TExt s s' ∧ Next b s' top rest ∧ s'.suspended = s.suspended
   loop : ∀ (b : Base) (st : CtlState) (s s' : St), WF s → Live b s → b.pc = -2 →
     (runLoop n st).run s = (.ok (), s') → WF s' ∧ TExt s s' ∧ Finished b s' ∧ s'.suspended = s.suspended
   run : ∀ (b : Base) (s s' : St) (top : Act) (v : Val), WF s → Running b s top [] → b.pc = -2 →
@@ -112,7 +124,7 @@ theorem loop_succ (n : Nat) (ih : AllSpec n) (b : Base) (st : CtlState) (s s' : 
     | error e => cases e <;> simp only [run_bind, run_restore, run_modify, run_throw] at hex <;> cases hex
     | ok u =>
       obtain ⟨hw1, he1, hl1, hs1⟩ := ih.exec b s s1 top rest i hw hr hi hx
-      obtain ⟨hw2, he2, hf2, hs2⟩ := ih.loop b st s1 s' hw1 hl1 hb hex
+      obtain ⟨hw2, he2, hf2, hs2⟩ := ih.loop b st s1 s' hw1 hl1.live hb hex
       exact ⟨hw2, he1.trans he2, hf2, hs2.trans hs1⟩
   · have hpc : s.pc = -1 := by rw [hf.pc, hb]; rfl
     rw [runLoop_finished n st s hpc] at hex
@@ -164,7 +176,7 @@ theorem actOK_of_good {s : St} {id : Nat} (hg : FnGood s id) (hid : id < s.fns.l
     ∃ ann, Verified (fnB s id) ann ∧ ∀ D S A, ActOK s ⟨id, ann, D, S, A⟩ := by
   obtain ⟨ann, hv⟩ := hg.verified
   have hV := verified_of_verify _ _ hv
-  refine ⟨ann, hV, fun D S A => ⟨hV.toStep, ?_, ?_, hg.user, hid, hg.code⟩⟩
+  refine ⟨ann, hV, fun D S A => ⟨hV.toStep, hV.entry, ?_, ?_, hg.user, hid, hg.code⟩⟩
   · simp only [verify, Bool.and_eq_true, beq_iff_eq] at hv
     exact hv.1.1.1
   · have hfin := hV.fin
@@ -194,7 +206,7 @@ theorem WF.ctl {s : St} (h : WF s) (a : List (Option (Nat × Int))) (cur : Nat) 
 /-- `ret` -/
 theorem exec_ret_ok (n : Nat) (b : Base) (s s' : St) (top : Act) (rest : List Act) (hw : WF s) (hr : Running b s top rest)
     (hf : (fnOf s s.curfunc).code[s.pc.toNat]? = some .ret) (hex : (exec (n + 1) .ret).run s = (.ok (), s')) :
-    WF s' ∧ TExt s s' ∧ Live b s' ∧ s'.suspended = s.suspended := by
+    WF s' ∧ TExt s s' ∧ Next b s' top rest ∧ s'.suspended = s.suspended := by
   have hret : AtRet (fnB s top.f) (absC s) := hr.fetchB hf
   obtain ⟨hd, hsc, ha⟩ := inv_at_ret_s _ _ hr.ok.step _ _ _ _ hr.inv hret
   simp only [exec] at hex
@@ -205,7 +217,7 @@ theorem exec_ret_ok (n : Nat) (b : Base) (s s' : St) (top : Act) (rest : List Ac
     rw [h3] at hex
     simp only [run_set] at hex
     cases hex
-    refine ⟨hw.ctl _ _ _, TExt.same rfl rfl, Or.inr ⟨rfl, rfl, ?_, ?_, rfl⟩, rfl⟩
+    refine ⟨hw.ctl _ _ _, TExt.same rfl rfl, Or.inr (Or.inr (Or.inr ⟨rfl, rfl, ?_, ?_, rfl⟩)), rfl⟩
     · show s.data.map cellOf = _
       have : (absC s).data = s.data.map cellOf := rfl
       rw [← this, hd, h1]
@@ -222,7 +234,7 @@ theorem exec_ret_ok (n : Nat) (b : Base) (s s' : St) (top : Act) (rest : List Ac
     have hc6 : Chain b { s with addr := tail, curfunc := a.f, pc := r } rest' a.D a.S tail :=
       Chain.ext he _ _ _ _ h6
     have ha5 : ActOK { s with addr := tail, curfunc := a.f, pc := r } a := h5.ext he
-    refine ⟨hw.ctl _ _ _, TExt.same rfl rfl, Or.inl ⟨a, rest', ⟨rfl, h2, ?_, ha5, hc6, hr.lin⟩⟩, rfl⟩
+    refine ⟨hw.ctl _ _ _, TExt.same rfl rfl, Or.inr (Or.inr (Or.inl ⟨a, rest', rfl, ⟨rfl, h2, ?_, ha5, hc6, hr.lin⟩⟩)), rfl⟩
     have : absC { s with addr := tail, curfunc := a.f, pc := r } = ⟨r.toNat, .val :: top.D, top.S, a.A⟩ := by
       apply absC_eq
       · rfl
@@ -308,7 +320,7 @@ theorem call_step {b : Base} {s s' : St} {top : Act} {rest : List Act} {i : Inst
     (he : eff (toB s.loops i) = .simple p 1) (hd : s.data.map cellOf = List.replicate p .val ++ tail)
     (hw' : WF s') (hext : TExt s s') (hd' : s'.data.map cellOf = .val :: tail) (hl : s'.linear = s.linear)
     (ha : s'.addr = s.addr) (hc : s'.curfunc = s.curfunc) (hp : s'.pc = s.pc + 1) (hs : s'.suspended = s.suspended) :
-    WF s' ∧ TExt s s' ∧ Live b s' ∧ s'.suspended = s.suspended := by
+    WF s' ∧ TExt s s' ∧ Next b s' top rest ∧ s'.suspended = s.suspended := by
   have hstep : CStep (fnB s s.curfunc) (absC s) (absC s') := by
     have := CStep.simple (f := fnB s s.curfunc) (absC s) _ p 1 (List.replicate p .val) tail (Refine.fetchB hf) he hd (by simp)
     have heq : absC s' = { absC s with pc := (absC s).pc + 1, data := List.replicate 1 .val ++ tail } := by
@@ -320,12 +332,12 @@ theorem call_step {b : Base} {s s' : St} {top : Act} {rest : List Act} {i : Inst
       · show s'.addr.length = s.addr.length; rw [ha]
     rw [heq]; exact this
   have r := finish_step hr hw' hext hstep hc ha (by rw [hp]; have := hr.pc; omega) (Or.inl hl) hs
-  exact ⟨r.wf, r.ext, Or.inl ⟨top, rest, r.run⟩, r.susp⟩
+  exact ⟨r.wf, r.ext, Or.inl r.run, r.susp⟩
 
 theorem exec_callArr_ok (n : Nat) (ih : AllSpec n) (b : Base) (s s' : St) (top : Act) (rest : List Act) (k : Nat)
     (hw : WF s) (hr : Running b s top rest) (hf : (fnOf s s.curfunc).code[s.pc.toNat]? = some (.callArr k))
     (hex : (exec (n + 1) (.callArr k)).run s = (.ok (), s')) :
-    WF s' ∧ TExt s s' ∧ Live b s' ∧ s'.suspended = s.suspended := by
+    WF s' ∧ TExt s s' ∧ Next b s' top rest ∧ s'.suspended = s.suspended := by
   obtain ⟨tail, htv⟩ := hr.top_vals hf (p := k) (m := 1) rfl
   simp only [exec] at hex
   obtain ⟨hw', he, hd, hl, ha, hc, hp, hs⟩ := ih.user "array" k s s' tail hw htv hex
@@ -353,7 +365,7 @@ theorem resolved_succ (n : Nat) (ih : AllSpec n) (b : Base) (s s' : St) (top : A
     (hf : (fnOf s s.curfunc).code[s.pc.toNat]? = some (.callExpr c0 args))
     (hvf : vok s.fns.length f = true) (hoa : okLs args = true)
     (hex : (callResolved (n + 1) f args).run s = (.ok (), s')) :
-    WF s' ∧ TExt s s' ∧ Live b s' ∧ s'.suspended = s.suspended := by
+    WF s' ∧ TExt s s' ∧ Next b s' top rest ∧ s'.suspended = s.suspended := by
   unfold VM.callResolved at hex
   rw [run_bind, run_get] at hex
   dsimp only at hex
@@ -378,7 +390,7 @@ theorem resolved_succ (n : Nat) (ih : AllSpec n) (b : Base) (s s' : St) (top : A
       have hid2 : fid < s'.fns.length := by rw [h6]; exact hid1
       have hg2 := hw2.fns fid hvf.1 hid2
       obtain ⟨ann, hV, hact⟩ := actOK_of_good hg2 hid2
-      refine ⟨hw2, he2, Or.inl ⟨⟨fid, ann, s.data.map cellOf, s.linear.length, s.addr.length + 1⟩, top :: rest, ?_⟩, by rw [h5, hs1]⟩
+      refine ⟨hw2, he2, Or.inr (Or.inl ⟨⟨fid, ann, s.data.map cellOf, s.linear.length, s.addr.length + 1⟩, ?_⟩), by rw [h5, hs1]⟩
       have hfo : fnOf s' fid = fnOf s1 fid := by simp only [VM.fnOf, h6]
       refine ⟨h1, by rw [h2]; exact Int.le_refl 0, ?_, hact _ _ _, ?_, by rw [h4, hl1]; exact hr.lin⟩
       · apply inv_entry _ _ hV
